@@ -5,14 +5,11 @@ namespace Tmv.Facts
 def addPart_index_guard : String := "part.Index >= ps.total"
 
 /-- cond types/part_set.go PartSet.AddPart -/
-def addPart_position_guard : String := "<missing>"
-
-/-- const types/validator_set.go MaxTotalVotingPower -/
-def maxTotalVotingPower : Int := 1152921504606846975
+def addPart_position_guard : String := "part.Proof.Index != int64(part.Index) || part.Proof.Total != int64(ps.total)"
 
 /-- const crypto/merkle/proof.go MaxAunts -/
 def merkle_MaxAunts : Int := 100
 
-def factCount : Nat := 4
+def factCount : Nat := 3
 
 end Tmv.Facts
